@@ -946,4 +946,55 @@ theorem proc_label_ambiguous_witness :
       ∧ procLabel true { name := "go".toList, parent := some "m".toList, binder := some "t".toList } = "m::t%go".toList := by
   decide
 
+/-! ## Round 6: the table fall-back - rows against the cell of the root -/
+
+/-- **The root's cell spans all the rows of the table (partial).**  A graph shown as a table has one row
+    (two `<tr>`) per kept edge of the refused first hop, and the cell of the root is given a `rowspan`.
+    For the code as it is the span covers the rows exactly when every entity one step away is joined to
+    the root by *one* edge and the root has no edge to itself.  Excluded by the decidable hypotheses `hd`,
+    `hr`: two relations to the same entity (a type that extends `t` and has a component of type `t`, a
+    procedure reached by a call and by an interface edge) and self-loops (recursion) - finding
+    `C13-table-rootspan`, see `table_root_span_witness`. -/
+theorem table_root_span_partial (fx : Bool) (tab : Table) (nd : NodeData) (c : GClass) (r : Node)
+    (h : shownOf fx tab nd c [r] = .table)
+    (hd : ((succOf tab nd c r).map Prod.fst).Nodup) (hr : r ∉ (succOf tab nd c r).map Prod.fst) :
+    rootSpan false (graphOf fx tab nd c [r]) = tableTrs (graphOf fx tab nd c [r]) + 1 := by
+  obtain ⟨_, _, _, h4, h5, _⟩ := table_shows_first_hop fx tab nd c [r] h
+  have hc : cands (cfgOf fx tab nd c [r]).succ [r] = succOf tab nd c r := by simp [cands, cfgOf]
+  have hl := hop_lengths_eq (cfg := cfgOf fx tab nd c [r]) (added := dedup [r]) (nodes := [r])
+    (by rw [hc]; exact hd)
+    (by rw [hc]; intro x hx hxr; simp [dedup] at hxr; subst hxr; exact hr hx)
+  simp only [rootSpan, tableTrs, h4, h5, hl]
+  simp
+
+/-- whatever the hop looks like, the code as it is never spans too many rows - when the span is wrong it
+    is short, and the rows below it slide into the root's column ... -/
+theorem table_root_span_short (fx : Bool) (tab : Table) (nd : NodeData) (c : GClass) (roots : List Node)
+    (h : shownOf fx tab nd c roots = .table) :
+    rootSpan false (graphOf fx tab nd c roots) ≤ tableTrs (graphOf fx tab nd c roots) + 1 := by
+  obtain ⟨_, _, _, h4, h5, _⟩ := table_shows_first_hop fx tab nd c roots h
+  have := hop_length_le (cfg := cfgOf fx tab nd c roots) (added := dedup roots) (nodes := roots)
+  simp only [rootSpan, tableTrs, h4, h5]
+  simp; omega
+
+/-- ... with fixes/C13-table-rootspan.diff (span computed from the edges the rows are written for) there is
+    no excluded class. -/
+theorem table_root_span_fixed (g : GState) : rootSpan true g = tableTrs g + 1 := by
+  simp [rootSpan, tableTrs]
+
+/-- Witness for the excluded class: type `0` extends type `1` and has a component of type `1`,
+    `graph_maxnodes: 1`: its "inherits" graph is shown as a table of two rows (four `<tr>`), the root's
+    cell spans three. -/
+theorem table_root_span_witness :
+    let tab : Table := [{ kind := .type, anc := some 1, comps := [1], maxDepth := 2, maxNodes := 1 }, { kind := .type }]
+    let nd : NodeData := { created := [0, 1], fwd := [⟨0, .ext, 1⟩, ⟨0, .comp, 1⟩], inv := [⟨1, .ext, 0⟩, ⟨1, .comp, 0⟩] }
+    shownOf false tab nd .inherits [0] = .table
+      ∧ tableTrs (graphOf false tab nd .inherits [0]) = 4
+      ∧ rootSpan false (graphOf false tab nd .inherits [0]) = 3
+      ∧ rootSpan true (graphOf false tab nd .inherits [0]) = 5 := by
+  have hg : ∀ tab nd, graphOf false tab nd .inherits [0] = runGraph (cfgOf false tab nd .inherits [0]) [0] := fun _ _ => rfl
+  simp only [shownOf, hg]
+  rw [runGraph, addNodes]
+  decide
+
 end Ford.C13
